@@ -64,34 +64,17 @@ impl BerEncoder for SnmpInt {
             }
             Ordering::Less => {
                 let start = buf.len();
-                let mut left = -self.0;
-                // Calculate used octets
-                let mut ln = 0;
-                while left > 0 {
-                    ln += 1;
-                    left >>= 8;
+                // Minimal two's complement: drop leading 0xff octets
+                // while the next octet keeps the sign bit set
+                let octets = self.0.to_be_bytes();
+                let mut first = 0;
+                while first < octets.len() - 1
+                    && octets[first] == 0xff
+                    && octets[first + 1] & 0x80 == 0x80
+                {
+                    first += 1;
                 }
-                // Calculate complement
-                let d = 1 << (ln * 8 - 1);
-                left = -self.0;
-                let comp = if d < left { d << 8 } else { d };
-                // Write octets
-                if comp == left {
-                    for _ in 0..ln - 1 {
-                        buf.push_u8(0)?;
-                    }
-                    buf.push_u8(0x80)?;
-                } else {
-                    left = comp - left;
-                    loop {
-                        if left < 0xff {
-                            buf.push_u8(0x80 | (left as u8))?;
-                            break;
-                        }
-                        buf.push_u8((left & 0xff) as u8)?;
-                        left >>= 8;
-                    }
-                }
+                buf.push(&octets[first..])?;
                 // Write tag and length
                 buf.push_tag_len(TAG_INT, buf.len() - start)
             }
